@@ -387,6 +387,9 @@ def hook(interp, name, args, kwargs, node):
     if name == "numpy.finfo":
         from .interp import Obj
         return Obj(None, {"eps": Fraction(1, 2 ** 52)})
+    if name in ("numpy.array", "numpy.copy") and isinstance(a0, NArr):
+        import copy as _copy
+        return NArr(_copy.deepcopy(a0.data))    # np.array copies
     if name == "numpy.array" and isinstance(a0, (list, tuple)):
         def conv(v):
             if isinstance(v, NArr):
